@@ -194,47 +194,52 @@ func (e *c16Eval) fit(iv c16Iv, v ssa.Value, what string) (c16Iv, *c16Err) {
 	return iv, nil
 }
 
-func c16Refine(iv c16Iv, v ssa.Value, at *ssa.BasicBlock) c16Iv {
-	if at == nil {
-		return iv
-	}
+// refine narrows the range of v by the branch conditions under which it is used:
+// comparisons of v with a constant or with another value whose range is known
+// (so `if x < a { x = a }; if b < x { return b }; return x` evaluates as a clamp).
+func (e *c16Eval) refine(iv c16Iv, v ssa.Value, conds []condEdge, env map[*ssa.Parameter]c16Iv, busy map[ssa.Value]bool, depth int) c16Iv {
 	out := iv
-	for _, ce := range controllingConds(at) {
+	for _, ce := range conds {
 		b, ok := ce.Cond.(*ssa.BinOp)
 		if !ok {
 			continue
 		}
-		op, k, isC := b.Op, int64(0), false
-		if b.X == v {
-			k, isC = c16K(b.Y)
-		} else if b.Y == v {
-			k, isC = c16K(b.X)
-			op = c16Flip[op]
+		op, other := b.Op, ssa.Value(nil)
+		if _, isCmp := c16Flip[op]; !isCmp {
+			continue
 		}
-		if !isC {
+		if b.X == v {
+			other = b.Y
+		} else if b.Y == v {
+			other, op = b.X, c16Flip[op]
+		} else {
 			continue
 		}
 		if !ce.True {
 			op = c16Not[op]
 		}
+		o, err := e.base(other, env, busy, depth) // the unrefined range of the other operand is sound
+		if err != nil || o.lo == math.MinInt64 || o.hi == math.MaxInt64 {
+			continue
+		}
 		switch op {
 		case token.EQL:
-			out.lo, out.hi = max(out.lo, k), min(out.hi, k)
+			out.lo, out.hi = max(out.lo, o.lo), min(out.hi, o.hi)
 		case token.NEQ:
-			if out.lo == k {
+			if o.lo == o.hi && out.lo == o.lo {
 				out.lo++
 			}
-			if out.hi == k {
+			if o.lo == o.hi && out.hi == o.lo {
 				out.hi--
 			}
 		case token.LSS:
-			out.hi = min(out.hi, k-1)
+			out.hi = min(out.hi, o.hi-1)
 		case token.LEQ:
-			out.hi = min(out.hi, k)
+			out.hi = min(out.hi, o.hi)
 		case token.GTR:
-			out.lo = max(out.lo, k+1)
+			out.lo = max(out.lo, o.lo+1)
 		case token.GEQ:
-			out.lo = max(out.lo, k)
+			out.lo = max(out.lo, o.lo)
 		}
 	}
 	if out.lo > out.hi {
@@ -246,12 +251,26 @@ func c16Refine(iv c16Iv, v ssa.Value, at *ssa.BasicBlock) c16Iv {
 	return out
 }
 
-func (e *c16Eval) eval(v ssa.Value, at *ssa.BasicBlock, env map[*ssa.Parameter]c16Iv, busy map[ssa.Value]bool, depth int) (c16Iv, *c16Err) {
+// evalOn evaluates v as it flows along the edge from -> to (phi operand): the
+// conditions controlling from, plus from's own branch when to is one distinct successor.
+func (e *c16Eval) evalOn(v ssa.Value, from, to *ssa.BasicBlock, env map[*ssa.Parameter]c16Iv, busy map[ssa.Value]bool, depth int) (c16Iv, *c16Err) {
 	iv, err := e.base(v, env, busy, depth)
 	if err != nil {
 		return iv, err
 	}
-	return c16Refine(iv, v, at), nil
+	conds := controllingConds(from)
+	if iff, ok := from.Instrs[len(from.Instrs)-1].(*ssa.If); ok && len(from.Succs) == 2 && from.Succs[0] != from.Succs[1] {
+		conds = append(conds, condEdge{iff.Cond, from.Succs[0] == to, iff})
+	}
+	return e.refine(iv, v, conds, env, busy, depth), nil
+}
+
+func (e *c16Eval) eval(v ssa.Value, at *ssa.BasicBlock, env map[*ssa.Parameter]c16Iv, busy map[ssa.Value]bool, depth int) (c16Iv, *c16Err) {
+	iv, err := e.base(v, env, busy, depth)
+	if err != nil || at == nil {
+		return iv, err
+	}
+	return e.refine(iv, v, controllingConds(at), env, busy, depth), nil
 }
 
 func (e *c16Eval) unknown(v ssa.Value) (c16Iv, *c16Err) {
@@ -290,7 +309,7 @@ func (e *c16Eval) base(v ssa.Value, env map[*ssa.Parameter]c16Iv, busy map[ssa.V
 	case *ssa.Phi:
 		var out c16Acc
 		for i, ed := range x.Edges {
-			iv, err := e.eval(ed, x.Block().Preds[i], env, busy, depth)
+			iv, err := e.evalOn(ed, x.Block().Preds[i], x.Block(), env, busy, depth)
 			if err != nil {
 				return iv, err
 			}
